@@ -18,12 +18,16 @@ import RModel.Model.Patch
                `""`, for which `exists()` is false, so `[""]` is recorded — and ignored by STEP 3 of undo because
                `"".exists()` is false there as well.  STEP 3 therefore never removes anything: `createdDirs = []`.
   undo STEP 1  directory mappings from `plan.paths` in plan order, stable sort by depth of `new_path` ascending,
-               `to.exists()` guard (FOLLOWS symlinks), `rename(to, from)`; then the file renames with the
+               `symlink_metadata(to).is_ok()` guard (lstat; was `to.exists()`, which follows symlinks), `rename(to, from)`; then the file renames with the
                `starts_with(dir_to)` adjustment loop (transliterated, including the second clause, which only
                re-assigns `rename.path`), stable sort by depth of the adjusted `to` descending, same guard.
                An error of `fs::rename` aborts the command (`?`).
-  undo STEP 2  per stored patch: read the file at `original_file`, `Patch::from_str`, `diffy::apply`, write in place,
-               restore the mode; a failure writes `<file>.<ext>.rej` next to it and the command fails at the end.
+  undo STEP 2  per stored patch: read the file at `original_file`, `Patch::from_str`, `diffy::apply`, write the result to
+               `file.with_extension("<pid>.renamify.tmp")` (the extension is REPLACED: `a.txt` ↦ `a.<pid>.renamify.tmp`, the
+               same temp name apply uses), chmod it to the mode of the file, rename it over the file.  Net effect on
+               the tree: content replaced, mode kept — `setContent`; the trace (C04/C11) is create+write, chmod, rename.
+               A failure writes `<file>.<ext>.rej` next to it and the command fails at the end.
+               Assumed: no user file carries the temp name (it would be overwritten), directories are writable.
   `diffy::create_patch` / `diffy::apply` are parameters (`Cfg`).
   Not modelled: symlinked directories inside planned paths, the history file, case-insensitive filesystems
   (the two-step rename), a umask other than 022 (mode of a new `.rej` file).
@@ -104,9 +108,9 @@ def existsF (t : Tree) (p : Path) : Bool :=
   | some (.link tgt) => if tgt.head? == some 47 then false else walk t 64 p.dropLast (B.splitOn tgt 47)
   | some _ => true
 
-/-- the guard of STEP 1 (one definition, so that a repaired guard — `symlink_metadata(to).is_ok()` — is a
-    one-line change here: `exists_ t p`) -/
-def guardExists (t : Tree) (p : Path) : Bool := existsF t p
+/-- the guard of STEP 1: `fs::symlink_metadata(to).is_ok()` (lstat: a dangling link exists).
+    Before commit "undo renames dangling symlinks back" it was `to.exists()` = `existsF`. -/
+def guardExists (t : Tree) (p : Path) : Bool := exists_ t p
 
 -- undo STEP 1 --------------------------------------------------------------------------------------------
 
@@ -130,15 +134,17 @@ def sortDirs (m : List Mapping) : List Mapping := sortM (fun a b => decide (dept
 /-- deepest first: the order before commit "undo renames directories back shallowest first" -/
 def sortDirsOld (m : List Mapping) : List Mapping := sortM (fun a b => decide (depth b.2 ≤ depth a.2)) m
 
-/-- `for (from, to) in …: if to.exists() { fs::rename(to, from)? }` -/
-def renameBack : Tree → List Mapping → Tree × Option Errno
+/-- `for (from, to) in …: if <guard>(to) { fs::rename(to, from)? }` -/
+def renameBackWith (guard : Tree → Path → Bool) : Tree → List Mapping → Tree × Option Errno
   | t, [] => (t, none)
   | t, (f, to) :: rest =>
-    if guardExists t to then
+    if guard t to then
       match rename t to f with
-      | .ok t' => renameBack t' rest
+      | .ok t' => renameBackWith guard t' rest
       | .error e => (t, some e)
-    else renameBack t rest
+    else renameBackWith guard t rest
+
+def renameBack : Tree → List Mapping → Tree × Option Errno := renameBackWith guardExists
 
 /-- the adjustment loop over the (sorted) directory mappings, literally -/
 def adjust (dm : List Mapping) (r : Ren) : Mapping :=
@@ -151,17 +157,21 @@ def fileRenames (dm : List Mapping) (rs : List Ren) : List Mapping :=
 
 def sortFiles (m : List Mapping) : List Mapping := sortM (fun a b => decide (depth b.2 ≤ depth a.2)) m
 
-def undoRenamesWith (sortD : List Mapping → List Mapping) (rs : List Ren) (t : Tree) : Tree × Option Errno :=
+def undoRenamesWith (guard : Tree → Path → Bool) (sortD : List Mapping → List Mapping) (rs : List Ren) (t : Tree) :
+    Tree × Option Errno :=
   let dm := sortD (dirMappings rs)
-  match renameBack t dm with
+  match renameBackWith guard t dm with
   | (t1, some e) => (t1, some e)
-  | (t1, none) => renameBack t1 (sortFiles (fileRenames dm rs))
+  | (t1, none) => renameBackWith guard t1 (sortFiles (fileRenames dm rs))
 
 /-- STEP 1 -/
-def undoRenames (rs : List Ren) (t : Tree) : Tree × Option Errno := undoRenamesWith sortDirs rs t
+def undoRenames (rs : List Ren) (t : Tree) : Tree × Option Errno := undoRenamesWith guardExists sortDirs rs t
 
-/-- STEP 1 as it was before the fix (directories deepest first) -/
-def undoRenamesOld (rs : List Ren) (t : Tree) : Tree × Option Errno := undoRenamesWith sortDirsOld rs t
+/-- STEP 1 before "undo renames directories back shallowest first" (directories deepest first, `exists()` guard) -/
+def undoRenamesOld (rs : List Ren) (t : Tree) : Tree × Option Errno := undoRenamesWith existsF sortDirsOld rs t
+
+/-- STEP 1 before "undo renames dangling symlinks back" (`exists()` guard, which follows links) -/
+def undoRenamesFollow (rs : List Ren) (t : Tree) : Tree × Option Errno := undoRenamesWith existsF sortDirs rs t
 
 -- undo STEP 2 --------------------------------------------------------------------------------------------
 
@@ -204,7 +214,7 @@ def applyOne (cfg : Cfg) (t : Tree) (pr : PatchRec) : Tree × Bool :=
     | .ok p =>
       match cfg.patchApply p c with
       | none => (writeFile t (rejPath pr.orig) pr.text, true)
-      | some c' => (setContent t pr.orig c', false)      -- `fs::write` in place, mode restored
+      | some c' => (setContent t pr.orig c', false)      -- temp file + chmod + rename: content replaced, mode kept
 
 def applyPatches (cfg : Cfg) : Tree → List PatchRec → Nat → Tree × Nat
   | t, [], n => (t, n)
